@@ -32,10 +32,11 @@ func cmdSelftest(args []string) int {
 		patch    string
 		prop     string
 		mustFail bool
+		benign   bool // behaviour-preserving refactoring: must not be reported as a violation (undecided is acceptable)
 	}
 	var cases []tc
 	knownMiss := map[string]bool{}
-	for _, kind := range []string{"mutants", "equivalents"} {
+	for _, kind := range []string{"mutants", "equivalents", "benign"} {
 		files, _ := filepath.Glob(filepath.Join(verifDir(), "selftest", kind, "*.patch"))
 		sort.Strings(files)
 		for _, f := range files {
@@ -44,7 +45,7 @@ func cmdSelftest(args []string) int {
 			if filter != "" && !strings.Contains(base, filter) {
 				continue
 			}
-			cases = append(cases, tc{f, prop, kind == "mutants"})
+			cases = append(cases, tc{f, prop, kind == "mutants", kind == "benign"})
 		}
 	}
 	// independently produced property-breaking changes (seeded/<prop>-<k>/patch.diff)
@@ -73,7 +74,7 @@ func cmdSelftest(args []string) int {
 				knownMiss[f] = true
 			}
 		}
-		cases = append(cases, tc{f, prop, expect})
+		cases = append(cases, tc{f, prop, expect, false})
 	}
 	self, _ := os.Executable()
 	bad := 0
@@ -136,6 +137,8 @@ func cmdSelftest(args []string) int {
 				}
 			case !c.mustFail && code == 0 && !viol:
 				fmt.Printf("ok   must-pass %s\n", filepath.Base(c.patch))
+			case c.benign && code == 2 && !viol:
+				fmt.Printf("ok   no-alarm (undecided) %s\n", filepath.Base(c.patch))
 			default:
 				bad++
 				fmt.Printf("BAD  %s (mustFail=%v exit=%d)\n%s\n", c.patch, c.mustFail, code, indent(truncate(string(b), 1500)))
